@@ -18,6 +18,10 @@ EXTRA = {  # seeds that also violate a neighbouring property's statement
     'C03_pinv_stale_overwrite': ['C08'],
     'C12_in_pybaselines_spline_utils_py_numba_btb': ['C07'],
     'C09_pybaselines_weighting_py_asls_was_rewrit': ['C01'],
+    'C01_r2_individual_axes_forward_order': ['C02', 'C20'],
+    'C07_r2_btb_forward_only_interval_scan': ['C12'],
+    'C17_r2_modpoly_drops_copy_weights': ['C13'],
+    'C11_r2_lam_one_skips_copy_aliasing': ['C06'],
 }
 
 
